@@ -142,3 +142,24 @@ def run_lines_watchdog(exe, lines, per_line=10.0, env=None):
     elif out and timed_out:
         out.pop()            # an unfinished answer line
     return ("TIMEOUT" if timed_out else p.returncode), out, err
+
+
+def family_sets_thorough():
+    """thorough tier, family modules: every subset of the four options that change the generated STRUCTURES
+    (-fwide-types, -findirect-choice, -fno-constraints, a codec switch) with -fcompound-names, plus the naming/include
+    options on top of some and -fcompound-names absent from some"""
+    out = []
+    core = ["-fwide-types", "-findirect-choice", "-fno-constraints", "-no-gen-OER"]
+    n = 0
+    for k in range(len(core) + 1):
+        for sub in itertools.combinations(core, k):
+            sub = list(sub)
+            if "-no-gen-OER" in sub:
+                n += 1
+                if n % 2 == 0:
+                    sub[sub.index("-no-gen-OER")] = "-no-gen-PER"
+            if sub:
+                out.append(tuple(["-fcompound-names"] + sub))
+    out += [("-fincludes-quoted",), ("-fno-include-deps",), ("-fcompound-names", "-fincludes-quoted", "-fno-include-deps"),
+            ("-fwide-types", "-findirect-choice", "-fno-constraints", "-fincludes-quoted", "-fno-include-deps"), ()]
+    return out
